@@ -128,6 +128,9 @@ func idsInUse(graph *Graph) map[string]*Task {
 }
 
 func shortID() (string, error) {
+	if id, ok := verifNextID(); ok {
+		return id, nil
+	}
 	buf := make([]byte, 4)
 	if _, err := rand.Read(buf); err != nil {
 		return "", err
